@@ -72,6 +72,44 @@ theorem walk_frames_follow_c06W {a : Walk.Arch} (ha : a ≠ .x86) (os : Walk.Os)
 example : ∀ a : Walk.Arch, a ≠ .x86 ↔ a ∈ [.amd64, .arm, .arm64, .arm64old, .mips32, .mips64] := by
   intro a; cases a <;> simp
 
+/-! ## non-vacuity: C06Env's example walk in `mkEnvW`, a STACK WIN record present -/
+
+/-- a STACK WIN record (frame data, `[0x1000, 0x1100)`, parameter size 8) for `exWorld`'s module:
+    with it `noWins` fails and `index`-style environments are `mkEnvW` -/
+def exWins : List (List Win.Rec) := [[⟨'4', 0x1000, 0x100, 8, 0, 0, '1', "$T0 .raSearch =".toList⟩]]
+
+example : Walk.noWins exWins = false := by decide
+
+/-- non-vacuity of `walk_frames_follow_c06W`: C06Env's example walk, run in `mkEnvW` with a STACK
+    WIN record present (amd64): it has a second frame, of trust `cfi`, stack pointer `0x1020`,
+    lookup address `0x401233`, and the theorem applies to it -/
+example : ∃ (h : 0 + 1 < (Walk.walk (Walk.mkEnvW .amd64 .other exWorld exWins exIn.mem) (some exIn.mem) exIn.callee).length),
+    (Walk.walk (Walk.mkEnvW .amd64 .other exWorld exWins exIn.mem) (some exIn.mem) exIn.callee)[0 + 1].trust = .cfi ∧
+    (Walk.walk (Walk.mkEnvW .amd64 .other exWorld exWins exIn.mem) (some exIn.mem) exIn.callee)[0 + 1].ctx.sp = 0x1020 ∧
+    (Walk.walk (Walk.mkEnvW .amd64 .other exWorld exWins exIn.mem) (some exIn.mem) exIn.callee)[0 + 1].instruction = 0x401233 ∧
+    FollowsC06 .amd64 .other exWorld exIn.mem
+      (Walk.walk (Walk.mkEnvW .amd64 .other exWorld exWins exIn.mem) (some exIn.mem) exIn.callee)[0]
+      (Walk.walk (Walk.mkEnvW .amd64 .other exWorld exWins exIn.mem) (some exIn.mem) exIn.callee)[0 + 1] := by
+  have hne : Walk.Arch.amd64 ≠ .x86 := by decide
+  obtain ⟨r, vs, hcfi, _, _, _, _, _, _, hsp, hip⟩ :=
+    ex_cfi (Walk.symbolise (Walk.mkEnvW .amd64 .other exWorld exWins exIn.mem) (Walk.Frame.ofCtx exIn.callee .context)) none rfl rfl
+  rw [← mkEnvW_cfi_specW hne .other exWorld exWins exIn.mem] at hcfi
+  have hstep := (cfi_frame_epilogue (Walk.mkEnvW .amd64 .other exWorld exWins exIn.mem) exIn.mem
+    (Walk.symbolise (Walk.mkEnvW .amd64 .other exWorld exWins exIn.mem) (Walk.Frame.ofCtx exIn.callee .context))
+    { ctx := r, trust := .cfi, instruction := r.ip - 1 } none).mpr
+      ⟨r, hcfi, by rw [hip]; decide, .inl (by rw [hsp]; decide), rfl⟩
+  obtain ⟨rest, hw⟩ := walk_second _ exIn.mem exIn.callee _ (by decide) (by decide) hstep.1
+  have hlen : 0 + 1 < (Walk.walk (Walk.mkEnvW .amd64 .other exWorld exWins exIn.mem) (some exIn.mem) exIn.callee).length := by
+    rw [hw]; simp
+  refine ⟨hlen, ?_⟩
+  have h1 : (Walk.walk (Walk.mkEnvW .amd64 .other exWorld exWins exIn.mem) (some exIn.mem) exIn.callee)[0 + 1] =
+      Walk.symbolise (Walk.mkEnvW .amd64 .other exWorld exWins exIn.mem) { ctx := r, trust := .cfi, instruction := r.ip - 1 } := by
+    simp only [hw]; rfl
+  have ht : (Walk.walk (Walk.mkEnvW .amd64 .other exWorld exWins exIn.mem) (some exIn.mem) exIn.callee)[0 + 1].trust = .cfi := by
+    rw [h1]; rfl
+  refine ⟨ht, by rw [h1]; exact hsp, by rw [h1]; show r.ip - 1 = _; rw [hip], ?_⟩
+  exact walk_frames_follow_c06W hne .other exWorld exWins exIn.mem (some exIn.mem) exIn.callee exCtx_ok 0 hlen ht
+
 /-! ## x86 with STACK WIN records: what a `cfi` frame is -/
 
 /-- **frame `f` of trust `cfi` above `p` in `mkEnvW` on x86**: `p`'s `esp` is valid; a module `i`
